@@ -102,6 +102,7 @@ func nodeCtxOf(loc common.Location) int { return loc.Context() }
 func TestC14_WorkObject(t *testing.T) {
 	rapid.Check(t, func(t *rapid.T) {
 		c := newCtx(t, "workobject")
+		defer codePanic(c)
 		g := &gen.Tags{}
 		loc := gen.Location(t, "loc")
 		x := gen.WorkObject(t, loc, gen.WoOpts{Regime: gen.AnyRegime, AuxPow: -1, NonZeroNumber: true}, g)
@@ -178,19 +179,16 @@ func TestC14_WorkObject(t *testing.T) {
 }
 
 func jsonWo(c *ctx, g *gen.Tags, x *types.WorkObject) {
-	for _, tx := range append(append(types.Transactions{}, x.Transactions()...), x.OutboundEtxs()...) {
-		if tx.Type() == types.QuaiTxType && tx.WorkNonce() != nil && tx.WorkNonce().Uint64() != 0 {
-			g.Add("json_skipped:C14/tx/json/quai-work-nonce-truncated")
-			return
-		}
-		if tx.Type() == types.QiTxType && (tx.WorkNonce() != nil || tx.ParentHash() != nil || tx.MixHash() != nil) {
-			g.Add("json_skipped:C14/tx/json/qi-work-fields-dropped")
-			return
-		}
+	// a work object embeds transactions: the known transaction-JSON classes are excluded exactly
+	all := append(append(types.Transactions{}, x.Transactions()...), x.OutboundEtxs()...)
+	if x.Tx() != nil {
+		all = append(all, x.Tx())
 	}
-	if tx := x.Tx(); tx != nil && tx.WorkNonce() != nil && tx.WorkNonce().Uint64() != 0 {
-		g.Add("json_skipped:C14/tx/json/quai-work-nonce-truncated")
-		return
+	for _, tx := range all {
+		if (quaiNonZeroWorkNonce(tx) && known(fpQuaiJsonWorkNonce)) || (qiWithWorkField(tx) && known(fpQiJsonWorkDropped)) {
+			g.Add("json_excluded")
+			return
+		}
 	}
 	jb, err := json.Marshal(x.RPCMarshalWorkObject("v2"))
 	if err != nil {
@@ -207,18 +205,17 @@ func jsonWo(c *ctx, g *gen.Tags, x *types.WorkObject) {
 	diffWoh(d, "woHeader.", x.WorkObjectHeader(), z.WorkObjectHeader(), true)
 	diffBody(d, "woBody.", x.Body(), z.Body(), fullBody)
 	diffTx(d, "tx.", x.Tx(), z.Tx(), false)
+	anyNil := auxNilBytes(x.WorkObjectHeader().AuxPow())
+	for _, u := range x.Uncles() {
+		anyNil = anyNil || auxNilBytes(u.AuxPow())
+	}
+	if anyNil && known(fpAuxJSONNil) {
+		d.dropDerived()
+	}
 	if !d.ok() {
 		fp := "C14/wo/json/rpc-accessors"
-		nilAux := func(wh *types.WorkObjectHeader) bool {
-			ap := wh.AuxPow()
-			return ap != nil && (ap.AuxPow2() == nil || ap.Signature() == nil)
-		}
-		anyNil := nilAux(x.WorkObjectHeader())
-		for _, u := range x.Uncles() {
-			anyNil = anyNil || nilAux(u)
-		}
 		if anyNil && d.fields() == "" {
-			fp = "C14/woheader/json/rpc-auxpow-nil-bytes-become-empty"
+			fp = fpAuxJSONNil
 		}
 		c.fail(fp, "JSON-RPC round trip of a work object differs: %s", d)
 	}
@@ -246,6 +243,13 @@ func dbWo(c *ctx, g *gen.Tags, x *types.WorkObject, loc common.Location) {
 	}
 	if y.Hash() != hash {
 		c.fail("C14/db/wo/hash", "hash changed through the database: %x -> %x", hash, y.Hash())
+	}
+	// the readers must type addresses for the database's node location
+	addressTyping(c, "db.coinbase", y.PrimaryCoinbase(), loc)
+	for _, tx := range append(append(types.Transactions{}, y.Transactions()...), y.OutboundEtxs()...) {
+		if tx.Type() != types.QiTxType && tx.To() != nil {
+			addressTyping(c, "db.tx.to", *tx.To(), loc)
+		}
 	}
 	if ra, rb := bodyRoots(x), bodyRoots(y); ra != rb {
 		c.fail("C14/db/wo/roots", "derived roots changed through the database")
@@ -310,6 +314,7 @@ func dbWo(c *ctx, g *gen.Tags, x *types.WorkObject, loc common.Location) {
 func TestC14_Pending(t *testing.T) {
 	rapid.Check(t, func(t *rapid.T) {
 		c := newCtx(t, "pending")
+		defer codePanic(c)
 		g := &gen.Tags{}
 		loc := gen.Location(t, "loc")
 		db := newDB(loc)
@@ -471,10 +476,12 @@ func TestC14_Pending(t *testing.T) {
 					}
 				}
 			}
-			if jb, err := x.MarshalJSON(); err == nil {
+			if known(fpTerminiMarshalJSON) {
+				g.Add("marshaljson_pair_excluded")
+			} else if jb, err := x.MarshalJSON(); err == nil {
 				var jt types.Termini
 				if err := jt.UnmarshalJSON(jb); err != nil {
-					c.fail("C14/termini/json/marshaljson-empty", "Termini.UnmarshalJSON(Termini.MarshalJSON()) failed: %v (json %s)", err, jb)
+					c.fail(fpTerminiMarshalJSON, "Termini.UnmarshalJSON(Termini.MarshalJSON()) failed: %v (json %s)", err, jb)
 				} else {
 					d := &diff{}
 					diffTermini(d, "", x, jt)
@@ -492,6 +499,7 @@ func TestC14_Pending(t *testing.T) {
 func TestC14_P2P(t *testing.T) {
 	rapid.Check(t, func(t *rapid.T) {
 		c := newCtx(t, "p2p")
+		defer codePanic(c)
 		g := &gen.Tags{}
 		if rapid.Bool().Draw(t, "request") {
 			r := gen.Request(t, g)
